@@ -260,7 +260,8 @@ Proof.
     + apply is_chain_nil.
     + lia.
   - (* TDefault, chain mode *) destruct W as (_ & W). cbn [vwf] in Hv.
-    destruct (m <=? d0); [|discriminate]. rewrite (proj1 IHt W _ _ _ Hv He). reflexivity.
+    destruct (N.leb_spec m d0); [|discriminate]. destruct (N.ltb_spec d0 m); [lia|].
+    rewrite (proj1 IHt W _ _ _ Hv He). reflexivity.
   - (* TDep *) destruct W as (_ & W1 & W2). destruct v; try discriminate.
     destruct (encode t v1) as [ea|] eqn:E1; [|discriminate]. destruct (encode (f v1) v2) as [eb|] eqn:E2; [|discriminate].
     cbn [obind] in He. inversion He; subst. cbn [vwf] in Hv. apply andb_true_iff in Hv. destruct Hv as [Hv1 Hv2].
@@ -397,15 +398,17 @@ Proof.
   - destruct (decode_uint w bs) as [[n r]|e] eqn:E; cbn [dbind]; split; try discriminate.
     + intros v r' H. inversion H; subst. eapply decode_uint_len; eassumption.
     + unfold decode_uint in E. destruct (take_n w bs) as [[? ?]|]; inversion E. discriminate.
-  - destruct (decode_uint 1 bs) as [[n r]|e] eqn:E; cbn [dbind]; split; try discriminate.
-    + intros v r' H. inversion H; subst. eapply decode_uint_len; eassumption.
-    + unfold decode_uint in E. destruct (take_n 1 bs) as [[? ?]|]; inversion E. discriminate.
+  - destruct (decode_uint 1 bs) as [[n r]|e] eqn:E; cbn [dbind].
+    + destruct (n =? 0); [|destruct (n =? 1)]; split; try discriminate;
+        intros v r' H; inversion H; subst; eapply decode_uint_len; eassumption.
+    + split; [discriminate|]. unfold decode_uint in E. destruct (take_n 1 bs) as [[? ?]|]; inversion E. discriminate.
   - destruct (split_collection bs) as [[d r]|e] eqn:E; cbn [dbind]; split; try discriminate.
     + intros v r' H. inversion H; subst. apply split_in_bounds in E. lia.
     + unfold split_collection, decode_varint in E. destruct bs as [|f r0]; cbn [dbind] in E; [inversion E; discriminate|].
       destruct (f / 64 <? 3); cbn [dbind] in E; [|inversion E; discriminate].
       destruct (take_n _ r0) as [[? ?]|]; cbn [dbind] in E; [|inversion E; discriminate].
       destruct (varint_len _ =? _); cbn [dbind] in E; [|inversion E; discriminate].
+      destruct (_ <? _); [inversion E; discriminate|].
       destruct (take_n _ l0) as [[? ?]|]; inversion E. discriminate.
   - destruct (take_n n bs) as [[h r]|] eqn:E; split; try discriminate.
     intros v r' H. inversion H; subst. apply take_n_spec in E. destruct E as [-> _]. rewrite app_length. lia.
@@ -421,6 +424,7 @@ Proof.
       destruct (f / 64 <? 3); cbn [dbind] in E; [|inversion E].
       destruct (take_n _ r0) as [[? ?]|]; cbn [dbind] in E; [|inversion E].
       destruct (varint_len _ =? _); cbn [dbind] in E; [|inversion E].
+      destruct (_ <? _); [inversion E|].
       destruct (take_n _ l0) as [[? ?]|]; inversion E.
   - destruct (decode_uint 1 bs) as [[m r]|e] eqn:E; cbn [dbind].
     + destruct (m =? 0); [split; [|discriminate]|destruct (m =? 1)].
@@ -466,8 +470,9 @@ Proof.
       destruct (f / 64 <? 3); cbn [dbind] in E; [|inversion E].
       destruct (take_n _ r0) as [[? ?]|]; cbn [dbind] in E; [|inversion E].
       destruct (varint_len _ =? _); cbn [dbind] in E; [|inversion E].
+      destruct (_ <? _); [inversion E|].
       destruct (take_n _ l0) as [[? ?]|]; inversion E.
-  - destruct disc as [d0|]; [|split; discriminate].
+  - destruct disc as [d0|]; [|split; discriminate]. destruct (d0 <? m); [split; discriminate|].
     destruct (decode t None bs) as [[p r]|e] eqn:E1; cbn [dbind]; split; try discriminate.
     + intros v r' H. inversion H; subst. apply (proj1 (IHt None bs)) in E1. assumption.
     + intro H. inversion H; subst. apply (proj2 (IHt None bs) E1).
@@ -554,12 +559,17 @@ Qed.
 Lemma canonical_both t : canonicalP t ->
   (wfP false t -> canon_type t) /\ (wfP true t -> canon_chain t).
 Proof.
-  ind_ty t; intro C; cbn [canonicalP] in C; try contradiction;
+  ind_ty t; intro C; cbn [canonicalP] in C;
     (split; [intros W bs v r Hok H | intros W d0 bs v r Hok H]); cbn [wfP] in W;
     try discriminate; try (destruct W as [W _]; discriminate); cbn [decode] in H.
   - (* TU *) destruct (decode_uint w bs) as [[n r']|] eqn:E; cbn [dbind] in H; [|discriminate]. inversion H; subst.
     destruct (decode_uint_canon _ _ _ _ Hok E) as [-> Hn]. exists (be_bytes w n). cbn [encode].
     destruct (N.ltb_spec n (256 ^ N.of_nat w)); [|lia]. split; reflexivity.
+  - (* TBool *) destruct (decode_uint 1 bs) as [[n r']|] eqn:E; cbn [dbind] in H; [|discriminate].
+    destruct (decode_uint_canon _ _ _ _ Hok E) as [-> Hn]. change (256 ^ N.of_nat 1) with 256 in Hn.
+    rewrite be_bytes_1 in * by assumption.
+    destruct (N.eqb_spec n 0); [inversion H; subst; exists [0]; split; reflexivity|].
+    destruct (N.eqb_spec n 1); [|discriminate]. inversion H; subst. exists [1]. split; reflexivity.
   - (* TBytes *) destruct (split_collection bs) as [[d r']|] eqn:E; cbn [dbind] in H; [|discriminate]. inversion H; subst.
     destruct (split_canon _ _ _ Hok E) as (used & Hu & ->). exists used. split; [exact Hu|reflexivity].
   - (* TArr *) destruct (take_n n bs) as [[h r']|] eqn:E; [|discriminate]. inversion H; subst.
@@ -625,10 +635,10 @@ Proof.
     + intros bs0 x r0 Hb Hdec. apply (proj1 (IHt2 C2) W3 bs0 x r0 Hb Hdec).
     + apply is_chain_nil.
     + cbn [vcat] in Hv. subst v'. exists used. cbn [encode]. rewrite Hev. cbn [obind]. split; [exact Hu|reflexivity].
-  - (* TDefault *) destruct C as [-> C]. destruct W as (_ & W).
+  - (* TDefault *) destruct W as (_ & W). destruct (N.ltb_spec d0 m); [discriminate|].
     destruct (decode t None bs) as [[p r1]|] eqn:E1; cbn [dbind] in H; [|discriminate]. inversion H; subst.
     destruct (proj1 (IHt C) W _ _ _ Hok E1) as (used & Hu & ->).
-    exists p, used. cbn [encode]. destruct (N.leb_spec 0 d0); [|lia]. split; [reflexivity|]. split; [exact Hu|reflexivity].
+    exists p, used. cbn [encode]. destruct (N.leb_spec m d0); [|lia]. split; [reflexivity|]. split; [exact Hu|reflexivity].
   - (* TDep *) destruct C as [C1 C2]. destruct W as (_ & W1 & W2).
     destruct (decode t None bs) as [[x r1]|] eqn:E1; cbn [dbind] in H; [|discriminate].
     destruct (decode (f x) None r1) as [[y r2]|] eqn:E2; cbn [dbind] in H; [|discriminate]. inversion H; subst.
@@ -670,5 +680,4 @@ Proof.
     repeat match goal with
     | H : _ && _ = true |- _ => apply andb_true_iff in H; destruct H
     end; repeat split; auto.
-  apply N.eqb_eq. assumption.
 Qed.
